@@ -297,6 +297,23 @@ def rule_spatial(ck):
     (o.ok('self.catalog[~region.get_masked(lons, lats)]') if good else o.fail(why))
 
 
+def rule_region_interface(ck):
+    """the spatial filter works for every kind of region a catalog can be bound to: each region class of the package offers the
+    methods filter_spatial calls on `self.region` (sibling implementations of one interface)"""
+    P = ck.prog
+    ck.clause('D5')
+    f = P.func(A + 'filter_spatial')
+    used = sorted({n.func.attr for n in all_nodes(f) if isinstance(n, ast.Call) and isinstance(n.func, ast.Attribute)
+                   and u(n.func.value) in ('self.region', 'region')})
+    regions = [c for q, c in sorted(P.classes.items()) if q.startswith('csep.core.regions.') and c.find_method('get_index_of') is not None]
+    for c in regions:
+        for m in used:
+            o = ck.ob('C04-D5.sibling', f, '%s.%s' % (c.short, m), f.node)
+            (o.ok() if c.find_method(m) is not None else
+             o.fail('filter_spatial calls region.%s(), which %s does not define: spatial filtering of a catalog bound to such a region raises '
+                    'AttributeError instead of keeping the events inside the region' % (m, c.short)))
+
+
 def rule_load(ck):
     P = ck.prog
     ck.clause('D6')
@@ -351,4 +368,4 @@ def rule_region_mask(ck):
     c01.rule_single_edge(ck)
 
 
-RULES = [rule_operators, rule_narrowing, rule_datetime, rule_effects, rule_spatial, rule_load, rule_paths, rule_region_mask]
+RULES = [rule_operators, rule_narrowing, rule_datetime, rule_effects, rule_spatial, rule_region_interface, rule_load, rule_paths, rule_region_mask]
